@@ -533,17 +533,7 @@ def test_hook(name):
 
 
 
-def _layer_of(E, st, name):
-    from pyvc.vals import to_z3, sort_of
-    t = ('opt', ('obj', 'Str'))
-    f = z3.Function('layer_from_name', sort_of(t), usort('Layer'))
-    return VObj('Layer', f(to_z3(name, t)))
-
-
-def layer_from_name_rule(E, st, node, args, kws, k):
-    v = _layer_of(E, st, args[0])
-    return k(st, v)
-layer_from_name_rule.__name__ = 'layer_from_name(name): a pure function of the name; never returns object'
+from contracts.vocab_layers import _layer_of, layer_from_name_rule  # noqa: E402  (moved to vocab_layers.py)
 
 
 def base_init(E, st, node, args, kws, k):
@@ -630,10 +620,6 @@ def register(E):
     E.axioms.append(z3.ForAll([z3.Const('t', Test)], count_f(z3.Const('t', Test)) >= 0))
     E.iter_sorts['Suite'] = lambda eng, st, o: st.alloc(HList(('obj', 'Test'), suite_arr(o.z), suite_len(o.z)))
     E.axioms.append(z3.ForAll([z3.Const('s', usort('Suite'))], suite_len(z3.Const('s', usort('Suite'))) >= 0))
-    from pyvc.vals import sort_of
-    lo = z3.Const('lo', sort_of(('opt', ('obj', 'Str'))))
-    E.axioms.append(z3.ForAll([lo], z3.Function('layer_from_name', lo.sort(), usort('Layer'))(lo) != z3.Const('OBJ', usort('Layer'))))
-    E.specfuncs['layer_of'] = _layer_of
     E.specfuncs.update({'isbuf': _isbuf, 'count': _count, 'is_alive': _is_alive, 'ignored': _ignored})
     E.assumptions += [
         "T4: unittest.TestResult base methods append exactly one entry to the respective list / increment testsRun; stop() sets shouldStop",
